@@ -1,7 +1,7 @@
 (* Proofs/ParseRefEq.v — Parse = reference decoder (Spec/RFC.v) on the projection C02 constrains, for every
    well-formed slice outside the three recorded classes.  First on canonical slices (capacity = length), layer by
    layer; then transferred to every capacity by Proofs/ParseSim.v. *)
-From PV Require Import Base.Prelude Base.Slice Model.Parse Spec.RFC Model.ParseKnown Model.ParseAlias Proofs.Parse Proofs.ParseSim Proofs.ParseRef.
+From PV Require Import Base.Prelude Base.Slice Model.Parse Model.ParseFixes Spec.RFC Model.ParseKnown Model.ParseAlias Proofs.Parse Proofs.ParseSim Proofs.ParseRef.
 Open Scope N_scope.
 Open Scope res_scope.
 
@@ -475,3 +475,10 @@ Proof.
   split; [vm_compute; reflexivity|]. split; [vm_compute; reflexivity|]. eexists. split; [vm_compute; reflexivity|].
   repeat split. eexists. split; vm_compute; reflexivity.
 Qed.
+
+(* ---------- the code in force (Model/ParseFixes.v): all three validators repaired, no class left ---------- *)
+Theorem parse_eq_ref_current c s :
+  c_fx c = current_fixes ->
+  wf s -> bytes_ok (view s) -> N.of_nat (len s) < 65536 ->
+  agrees (parse c s) (ref_decode (view s)).
+Proof. intros Hf. apply parse_eq_ref_repaired. rewrite Hf. reflexivity. Qed.
